@@ -248,6 +248,17 @@ def feature_cases(run, scratch):
     # support fields other than 0/1 are exported with a value attribute
     out.append((Case("feature:support-values", "feature", SYN, ["ann support membind 3 7", "ann support cpubind 0 255", "ann support discovery 5 2"], ["feature"]),
                 [(p, "buffer", "v3") for p in ALL]))
+    # every support field the exporter can write (all bytes of the three public structs of the current source), each alone and
+    # all together, imported with IMPORT_SUPPORT: compared bit by bit through hwloc_topology_get_support() and by re-export
+    allsup = []
+    n = 0
+    for cat in ("discovery", "cpubind", "membind"):
+        for idx in range(24):          # beyond the struct size the annotation is refused (rc=-1): harmless
+            allsup.append("ann support %s %d 1" % (cat, idx))
+            out.append((Case("feature:support-bit:%s:%d" % (cat, idx), "feature", SYN, ["ann support %s %d 1" % (cat, idx)], ["feature"]),
+                        [(ALL[n % 4], "buffer" if n % 2 else "file", "v3")]))
+            n += 1
+    out.append((Case("feature:support-all-bits", "feature", SYN, allsup, ["feature"]), [(p, m, "v3") for p in ALL for m in ("buffer", "file")]))
     # v2: HOPS matrices are written as LATENCY, and read back as HOPS when named XGMIHops
     out.append((Case("feature:v2-xgmihops", "feature", SYN, ["ann dist 4 33 5 %s" % G.hx(b"XGMIHops"), "ann dist 6 34 2 %s" % G.hx(b"OtherHops")], ["feature"]),
                 [(p, "buffer", "v2") for p in ALL] + [(("0", "0"), "buffer", "v3")]))
